@@ -448,6 +448,51 @@ impl<'tcx> Dumper<'tcx> {
         let _ = tcx;
     }
 
+    /// for constants of a fieldless enum type (by value or behind one reference): the variant name
+    fn enum_variant_name(&self, cv: ConstValue, ty: Ty<'tcx>, o: &mut J) {
+        let tcx = self.tcx;
+        let (inner, by_ref) = match ty.kind() {
+            TyKind::Ref(_, t, _) => (*t, true),
+            _ => (ty, false),
+        };
+        let TyKind::Adt(adt, _) = inner.kind() else { return };
+        if !adt.is_enum() || !adt.is_payloadfree() {
+            return;
+        }
+        let bits: Option<u128> = match cv {
+            ConstValue::Scalar(Scalar::Int(i)) if !by_ref => Some(i.to_bits_unchecked()),
+            ConstValue::Scalar(Scalar::Ptr(ptr, _)) if by_ref => {
+                let (prov, off) = ptr.into_raw_parts();
+                match tcx.global_alloc(prov.alloc_id()) {
+                    GlobalAlloc::Memory(alloc) => {
+                        let alloc = alloc.inner();
+                        let len = alloc.len();
+                        let start = off.bytes() as usize;
+                        if len - start <= 16 && len > start {
+                            let bytes = alloc.inspect_with_uninit_and_ptr_outside_interpreter(start..len);
+                            let mut v: u128 = 0;
+                            for (i, b) in bytes.iter().enumerate() {
+                                v |= (*b as u128) << (8 * i);
+                            }
+                            Some(v)
+                        } else {
+                            None
+                        }
+                    }
+                    _ => None,
+                }
+            }
+            _ => None,
+        };
+        if let Some(bits) = bits {
+            for (vi, d) in adt.discriminants(tcx) {
+                if d.val == bits {
+                    o.set("enum_variant", J::s(&format!("{}::{}", tcx.def_path_str(adt.did()), adt.variant(vi).name)));
+                }
+            }
+        }
+    }
+
     fn operand(&self, body: &Body<'tcx>, env: TypingEnv<'tcx>, op: &Operand<'tcx>) -> J {
         let tcx = self.tcx;
         match op {
@@ -484,7 +529,10 @@ impl<'tcx> Dumper<'tcx> {
                 }
                 if !matches!(ty.kind(), TyKind::FnDef(..)) {
                     match c.const_.eval(tcx, env, c.span) {
-                        Ok(cv) => self.const_val(cv, ty, &mut o),
+                        Ok(cv) => {
+                            self.const_val(cv, ty, &mut o);
+                            self.enum_variant_name(cv, ty, &mut o);
+                        }
                         Err(_) => {
                             o.set("uneval", J::Bool(true));
                         }
